@@ -287,12 +287,115 @@ func c10Unknown(c *fw.Case, ts *pdus.Tables, fam string, id uint32) {
 	}
 }
 
+// c10Lifecycle takes ONE PDU object through the life a connection handler gives it: encoded, renumbered, encoded
+// again, answered, decoded into again (a reused request object), answered again. After every step the sequence
+// number the object reports, the one in its encoded header and the one its generated response carries are the
+// one last given to it.
+func c10Lifecycle(c *fw.Case, ts *pdus.Tables, t *pdus.Type) {
+	lt := t.Lib()
+	v, _ := pdus.Gen(lt, c.R, -1, 0)
+	p := pdus.Build(lt, v)
+	want := v.Seq
+	if t.HKind != "sgip" {
+		want = [3]uint32{0, 0, v.Seq[2]}
+	}
+	off := seqOffset(t)
+	trail := "built"
+	for round := 0; round < 5; round++ {
+		step := ""
+		switch k := c.R.Intn(4); {
+		case round == 0:
+			step = "as built"
+		case k == 0 || k == 1:
+			x := c.R.U32()
+			if c.R.Chance(1, 4) {
+				x = []uint32{0, 1, 0x7fffffff, 0x80000000, 0xffffffff}[c.R.Intn(5)]
+			}
+			if pan, val, st := fw.Try(func() { p.SetSequenceID(x) }); pan {
+				c.Failf("set-sequence-"+fw.PanicSig(val, st)+"/"+t.Key(), "%s (%s): %v\n%s", t.Key(), trail, val, st)
+				return
+			}
+			want[2] = x
+			step = "SetSequenceID"
+		case k == 2:
+			v2, _ := pdus.Gen(t, c.R, -1, 0)
+			img := pdus.RefEncode(t, v2)
+			var err error
+			if pan, val, st := fw.Try(func() { err = p.IDecode(img) }); pan {
+				c.Failf("lifecycle-"+fw.PanicSig(val, st)+"/"+t.Key(), "%s (%s): IDecode: %v\n%s", t.Key(), trail, val, st)
+				return
+			}
+			if err != nil {
+				return // a refused image leaves the object in no particular state
+			}
+			want = v2.Seq
+			if t.HKind != "sgip" {
+				want = [3]uint32{0, 0, v2.Seq[2]}
+			}
+			step = "IDecode"
+		default:
+			step = "again"
+		}
+		trail += ">" + step
+		c.Evals(1)
+		var b, rb []byte
+		var err, rerr error
+		var got uint32
+		var r sms.PDU
+		if pan, val, st := fw.Try(func() {
+			got = p.GetSequenceID()
+			b, err = p.IEncode()
+			r = p.GenEmptyResponse()
+			if r != nil && !reflect.ValueOf(r).IsNil() {
+				rb, rerr = r.IEncode()
+			} else {
+				r = nil
+			}
+		}); pan {
+			c.Failf("lifecycle-"+fw.PanicSig(val, st)+"/"+t.Key(), "%s (%s): %v\n%s", t.Key(), trail, val, st)
+			return
+		}
+		if got != want[2] {
+			c.Failf("lifecycle-getter/"+t.Key()+"/"+step, "%s (%s): GetSequenceID()=%d, the object was last given %d", t.Key(), trail, got, want[2])
+			return
+		}
+		if err == nil && (len(b) < off+4 || binary.BigEndian.Uint32(b[off:]) != want[2]) {
+			c.Failf("lifecycle-header/"+t.Key()+"/"+step, "%s (%s): the object was last given sequence %d, its encoded header is %s", t.Key(), trail, want[2], hx(b[:min(len(b), off+4)]))
+			return
+		}
+		if err == nil && t.HKind == "sgip" && (binary.BigEndian.Uint32(b[8:]) != want[0] || binary.BigEndian.Uint32(b[12:]) != want[1]) {
+			c.Failf("lifecycle-header/"+t.Key()+"/"+step, "%s (%s): sequence words %v, encoded header %s", t.Key(), trail, want, hx(b[:20]))
+			return
+		}
+		if r != nil {
+			if r.GetSequenceID() != want[2] || r.GetCommand().ToUint32() != t.Cmd|0x80000000 {
+				c.Failf("lifecycle-response/"+t.Key()+"/"+step, "%s (%s): the request carries sequence %d, its generated response reports sequence %d and command %#x", t.Key(), trail, want[2], r.GetSequenceID(), r.GetCommand().ToUint32())
+				return
+			}
+			if rerr == nil && (len(rb) < off+4 || binary.BigEndian.Uint32(rb[off:]) != want[2] || binary.BigEndian.Uint32(rb[4:]) != t.Cmd|0x80000000 ||
+				(t.HKind == "sgip" && (binary.BigEndian.Uint32(rb[8:]) != want[0] || binary.BigEndian.Uint32(rb[12:]) != want[1]))) {
+				c.Failf("lifecycle-response-header/"+t.Key()+"/"+step, "%s (%s): the request carries sequence %v, the encoded header of its generated response is %s", t.Key(), trail, want, hx(rb[:min(len(rb), off+4)]))
+				return
+			}
+			// the caller numbers the reply itself (a relay): that is the reply's business, never the request's
+			if c.R.Chance(1, 3) {
+				r.SetSequenceID(^want[2])
+				if p.GetSequenceID() != want[2] {
+					c.Failf("lifecycle-response-shares-request/"+t.Key(), "%s (%s): renumbering the generated response changed the request's sequence to %d", t.Key(), trail, p.GetSequenceID())
+					return
+				}
+			}
+		}
+		c.Cover("lifecycle/" + t.Key() + "/" + step)
+	}
+}
+
 func init() {
 	ts := func() *pdus.Tables { return pdus.Load() }
 	fw.Register(&fw.Prop{
 		ID:        "C10",
 		Technique: "runtime monitor: pairing table oracle (request -> response type / sequence words / command id from the specifications) + dispatcher consistency oracle over encoded images and enumerated command ids",
-		Rule: "every request/response type x boundary and random sequence numbers (SGIP: all three words) x the three SMPP bind flavours; dispatchers on the reference image of every type and on every command id defined in the const blocks plus their response-bit twins (exhaustive) and random ids; constructors NewConnect/NewBind/NewLogin and the New…Packet/Bytes helpers; " +
+		Rule: "every request/response type x boundary and random sequence numbers (SGIP: all three words) x the three SMPP bind flavours; one object through encode / SetSequenceID / encode / GenEmptyResponse / IDecode of another image / GenEmptyResponse (lifecycle); dispatchers on the reference image of every type and on every command id defined in the const blocks plus their response-bit twins (exhaustive) and random ids; constructors NewConnect/NewBind/NewLogin and the New…Packet/Bytes helpers; " +
 			"distinct_nontrivial = distinct (clause, PDU type | family) keys judged",
 		Assumptions: []string{
 			"response table and the SGIP rule (all three sequence words repeated, SGIP 1.2 §3.4) come from the specifications, see spec/wire_tables.json",
@@ -300,6 +403,7 @@ func init() {
 		},
 		Stages: []*fw.Stage{
 			{Name: "pairing", N: q(61*300, 61*300000), Run: func(c *fw.Case) { c10Request(c, ts(), typeIdx(ts(), c.Idx)) }},
+			{Name: "lifecycle", N: q(61*150, 61*150000), Run: func(c *fw.Case) { c10Lifecycle(c, ts(), typeIdx(ts(), c.Idx)) }},
 			{Name: "dispatch", N: q(61*200, 61*200000), Run: func(c *fw.Case) { c10Dispatch(c, ts(), typeIdx(ts(), c.Idx)) }},
 			{
 				Name: "definedids", Exhaustive: "every command id defined in the cmpp/sgip/smgp/smpp const blocks and its response-bit twin, per dispatcher",
